@@ -179,6 +179,7 @@ def run(prog: Program, chk: Check):
     def leaves(f, lp, mapping):
         g_ = C.build(f.node)
         gs_ = flow.guard_states(g_)
+        lcm_ = guards.copy_map(f.node)  # `etype = ftype._type_` is looked through
         tvar = "$f1"
         out = {}
         for n in g_.nodes:
@@ -187,7 +188,7 @@ def run(prog: Program, chk: Check):
             for p_ in gs_.at(n):
                 facts = set()
                 for e, pol in p_:
-                    ce_ = _Canon(mapping).visit(_copy.deepcopy(e))
+                    ce_ = _Canon(mapping).visit(_copy.deepcopy(guards.subst(e, lcm_)))
                     while isinstance(ce_, ast.UnaryOp) and isinstance(ce_.op, ast.Not):
                         ce_, pol = ce_.operand, not pol
                     names = {x.id for x in ast.walk(ce_) if isinstance(x, ast.Name)}
@@ -201,6 +202,13 @@ def run(prog: Program, chk: Check):
     LE, LD = leaves(enc, le, me), leaves(decf, ld, md)
     LE.pop(frozenset(), None)
     LD.pop(frozenset(), None)
+
+    def maximal(L):
+        # a statement that runs under a *prefix* of another statement's tests (`elem = ftype._type_` between two tests of a
+        # guard-clause chain) is not a case of its own
+        return {k: v for k, v in L.items() if not any(k < o for o in L)}
+
+    LE, LD = maximal(LE), maximal(LD)
     as_expr = lambda fs: guards.parse(" and ".join((("" if pol else "not ") + "(" + t.replace("$", "_S_") + ")") for t, pol in sorted(fs)) or "True")
     as_facts = lambda fs: [(guards.parse(t.replace("$", "_S_")), pol) for t, pol in sorted(fs)]
     te, td = sorted(" & ".join(("" if pol else "!") + t for t, pol in sorted(fs)) for fs in LE), sorted(" & ".join(("" if pol else "!") + t for t, pol in sorted(fs)) for fs in LD)
